@@ -9,9 +9,9 @@ WRAPPERS = ["mt", "mc", "platt"]
 # design-model bounds: (pool, longest batch, most members, member values 0..MaxV); the thorough tier runs two shapes
 MODEL = {"quick": [dict(P=2, MaxLen=2, NM=2, MaxV=1)],
          "thorough": [dict(P=2, MaxLen=3, NM=3, MaxV=1), dict(P=2, MaxLen=2, NM=2, MaxV=2)]}
-GEN = {"quick": dict(Models=vlib.tla_set(BASE), Insts="{1, 2, 3}", P=3, MaxLen=2, Wrappers=vlib.tla_set(WRAPPERS), MockP=2,
+GEN = {"quick": dict(Models=vlib.tla_set(BASE), Insts="{1, 2, 3}", P=4, NX=1, MaxLen=2, MaxLen32=2, Wrappers=vlib.tla_set(WRAPPERS), MockP=2,
                      Fts='{"f64"}', FullTabs="FALSE"),
-       "thorough": dict(Models=vlib.tla_set(BASE), Insts="{1, 2, 3}", P=4, MaxLen=3, Wrappers=vlib.tla_set(WRAPPERS), MockP=2,
+       "thorough": dict(Models=vlib.tla_set(BASE), Insts="{1, 2, 3}", P=5, NX=2, MaxLen=3, MaxLen32=2, Wrappers=vlib.tla_set(WRAPPERS), MockP=2,
                         Fts='{"f64", "f32"}', FullTabs="TRUE")}
 INVS = ["InvOnePerRow", "InvPerSample", "InvBack", "InvMT", "InvMC", "InvPlatt", "InvRowwise", "InvMCSet"]
 ACTIONS = ["Begin", "DefaultTarget", "FillRow", "MTMember", "MTReshape", "MCMember", "MCStrip", "PlattMap", "Return"]
@@ -23,8 +23,8 @@ INFO = {  # model -> (nf, ot, views, row1, nonneg)
     "kmeans": (2, "lab", 1, 1, 0), "gmm": (2, "lab", 1, 0, 0), "ols": (2, "fx", 1, 0, 0), "isotonic": (1, "fx", 1, 0, 0),
     "tweedie": (2, "fx", 1, 0, 0), "enet": (2, "fx", 1, 0, 0), "mtenet": (2, "fx", 1, 0, 0), "logit": (2, "lab", 1, 0, 0),
     "mlogit": (2, "lab", 1, 0, 0), "svc": (2, "lab", 1, 1, 0), "svr": (2, "fx", 1, 1, 0), "svo": (2, "lab", 1, 1, 0),
-    "svp": (2, "fx", 1, 1, 0), "tree": (2, "lab", 1, 0, 0), "gnb": (2, "lab", 1, 0, 0), "mnb": (2, "lab", 1, 0, 1),
-    "ftrl": (2, "fx", 1, 0, 0), "pca": (3, "fx", 1, 0, 0), "pls": (3, "fx", 1, 0, 0), "ica": (2, "fx", 0, 0, 0)}
+    "svp": (2, "pr", 1, 1, 0), "tree": (2, "lab", 1, 0, 0), "gnb": (2, "lab", 1, 0, 0), "mnb": (2, "lab", 1, 0, 1),
+    "ftrl": (2, "pr", 1, 0, 0), "pca": (3, "fx", 1, 0, 0), "pls": (3, "fx", 1, 0, 0), "ica": (2, "fx", 0, 0, 0)}
 
 
 def width(m, inst):
@@ -59,6 +59,12 @@ def random_cases(ctx, per_model, maxlen=64, npool=12):
         pool = [[r.randint(lo, 13) for _ in range(nf)] for _ in range(npool)]
         for _ in range(2):
             pool[r.randrange(npool)] = list(pool[r.randrange(npool)])
+        # two extreme rows (1e2 .. 1e4 times the data scale, random signs per coordinate / per row)
+        for _ in range(2):
+            mag = r.choice([1200, 12000, 48000])
+            sgn = r.choice([[1] * nf, [-1] * nf, [(-1) ** c for c in range(nf)]])
+            row = [sg * (mag + r.randint(0, 40)) for sg in sgn]
+            pool[r.randrange(npool)] = [abs(x) for x in row] if nonneg else row
         return pool
 
     def ids_for():
@@ -77,8 +83,8 @@ def random_cases(ctx, per_model, maxlen=64, npool=12):
     for _ in range(per_model):
         inst = r.randint(1, 3)
         for kind, mem, nm, ot, mot, labels in [("mt", "real", 3, "fx", "fx", []), ("mt", "tree", 2, "lab", "lab", []),
-                                               ("mc", "real", 3, "lab", "fx", [5, 6, 7]),
-                                               ("platt", r.choice(["ols", "svr", "enet", "mock"]), 1, "fx", "fx", [])]:
+                                               ("mc", "real", 3, "lab", "pr", [5, 6, 7]),
+                                               ("platt", r.choice(["ols", "svr", "enet", "mock"]), 1, "pr", "fx", [])]:
             out.append({"kind": kind,
                         "inp": {"model": kind, "inst": inst, "ft": "f64", "ot": ot, "mot": mot, "nf": 2,
                                 "w": nm if kind == "mt" else 1, "nm": nm, "mem": mem, "labels": labels, "tab": [],
@@ -127,10 +133,11 @@ def run(ctx):
                 "tier]; non-trivial = batch of >= 2 rows; distinct by (type, instance, float type, members, pool, batch)")
     ctx.trusted = ["TLC + CommunityModules Json", "Elem tables (self-checked by MC_Elem in this run)",
                    "harness encoders and mock members (harness/src/bin/c03.rs)"]
-    ctx.assumptions = ["float outputs are compared at 1e-6 absolute (f32: 2e-4) against the first value recorded for the row",
+    ctx.assumptions = ["float outputs are compared at 1e-6 absolute (f32: 2e-4) against the first value recorded for the row; unbounded "
+                       "outputs of extreme rows (a coordinate beyond +-16) at 2e-3 absolute (f32: 2.0) because they are 1e2..1e4 times larger",
                        "training data are deterministic functions of (type, instance); the fitted model is a black box",
                        "Platt parameters are read from the model's Debug / serde rendering",
-                       "query rows stay inside the training range; an exact score tie between classes is generated only for "
+                       "ordinary query rows stay inside the training range, every pool also holds extreme rows (+-300 .. +-12000); an exact score tie between classes is generated only for "
                        "instance 4 of the two naive-Bayes types (mirror-image classes), where the statement still demands one label per sample"]
     return vlib.finish(ctx)
 
